@@ -53,8 +53,19 @@ def attrs_text(it, legacy):
 
 
 # ------------------------------------------------------------------ pattern shapes
+# The first six kinds are the original vocabulary; the rest (gen/c15_ctx.py builds them) covers every arm of
+# pattern_get_vars that recurses, one model constructor each (coq/Check/PatCtxModel.v xpat):
+#   ('hole', mode)            ref x | mut x | ref mut x                                   XVar
+#   ('var', w[, mode])        ANOTHER variable w                                         XVar
+#   ('atn', w, shape)         w @ shape   (the name on top is not the variable of the binder)   XAt
+#   ('lit',) ('rest',)        0i32   ..                                                  XWild
+#   ('slice', [shape])        [p, ..]                                                    XSlice
+#   ('tstruct', ctor, [shape])   ctor(p, ..)                                             XTupleStruct
+#   ('struct', ctor, [(field | None, shape)], open)   ctor { field: p, .. }  (field None: the shorthand `x`)   XStruct
+#   ('or', [shape])           p | q                                                      XOr
 
 HOLE, WILD = ("hole",), ("wild",)
+SEQ_KINDS = ("tuple", "slice", "tstruct", "struct", "or")
 
 
 def shape_of(node):
@@ -66,36 +77,86 @@ def shape_of(node):
     return None
 
 
+def shape_children(shape):
+    k = shape[0]
+    if k in ("at", "paren", "ref"):
+        return [shape[1]]
+    if k == "atn":
+        return [shape[2]]
+    if k in ("tuple", "slice", "or"):
+        return list(shape[1])
+    if k == "tstruct":
+        return list(shape[2])
+    if k == "struct":
+        return [q for _, q in shape[2]]
+    return []
+
+
+def _ident_text(mode, x):
+    return (mode + " " if mode else "") + x
+
+
 def pat_text(shape, x):
     k = shape[0]
     if k == "hole":
-        return x
+        return _ident_text(shape[1] if len(shape) > 1 else "", x)
+    if k == "var":
+        return _ident_text(shape[2] if len(shape) > 2 else "", shape[1])
     if k == "at":
         return "%s @ %s" % (x, pat_text(shape[1], x))
+    if k == "atn":
+        return "%s @ %s" % (shape[1], pat_text(shape[2], x))
     if k == "wild":
         return "_"
+    if k == "lit":
+        return "0i32"
+    if k == "rest":
+        return ".."
     if k == "paren":
         return "(%s)" % pat_text(shape[1], x)
     if k == "ref":
         return "&%s" % pat_text(shape[1], x)
     if k == "tuple":
-        return "(%s%s)" % (", ".join(pat_text(q, x) for q in shape[1]), "," if len(shape[1]) == 1 else "")
+        return "(%s%s)" % (", ".join(pat_text(q, x) for q in shape[1]), "," if (len(shape[1]) == 1 and shape[1][0][0] != "rest") else "")
+    if k == "slice":
+        return "[%s]" % ", ".join(pat_text(q, x) for q in shape[1])
+    if k == "tstruct":
+        return "%s(%s)" % (shape[1], ", ".join(pat_text(q, x) for q in shape[2]))
+    if k == "struct":
+        fs = [pat_text(q, x) if f is None else "%s: %s" % (f, pat_text(q, x)) for f, q in shape[2]]
+        return "%s { %s }" % (shape[1], ", ".join(fs + ([".."] if shape[3] else [])))
+    if k == "or":
+        return " | ".join(pat_text(q, x) for q in shape[1])
     raise ValueError(shape)
 
 
 def pat_expr(shape, e):
-    """an expression the pattern matches irrefutably, the variable receiving the i32 value of e"""
+    """an expression the pattern matches irrefutably, the variable receiving the i32 value of e (meaningful for the typed
+    shapes only: the others are used in programs that must not get as far as type checking)"""
     k = shape[0]
     if k in ("hole", "at"):
         return e
-    if k == "wild":
+    if k == "atn":
+        return pat_expr(shape[2], e)
+    if k in ("wild", "lit", "var"):
         return "0i32"
     if k == "paren":
         return pat_expr(shape[1], e)
     if k == "ref":
         return "&(%s)" % pat_expr(shape[1], e)
     if k == "tuple":
-        return "(%s%s)" % (", ".join(pat_expr(q, e) for q in shape[1]), "," if len(shape[1]) == 1 else "")
+        es = [pat_expr(q, e) for q in shape[1] if q[0] != "rest"]
+        return "(%s%s)" % (", ".join(es), "," if len(es) == 1 else "")
+    if k == "slice":
+        # the elements of an array have one type: the fillers (_ / another variable) get the expression of the element that has structure
+        main = [q for q in shape[1] if q[0] not in ("rest", "wild", "var", "lit")]
+        return "[%s]" % ", ".join(pat_expr(main[0] if (main and q[0] in ("wild", "var")) else q, e) for q in shape[1] if q[0] != "rest")
+    if k == "tstruct":
+        return "%s(%s)" % (shape[1], ", ".join(pat_expr(q, e) for q in shape[2] if q[0] != "rest"))
+    if k == "struct":
+        return "%s { %s }" % (shape[1], ", ".join("%s: %s" % (f or "c15f", pat_expr(q, e)) for f, q in shape[2]))
+    if k == "or":
+        return pat_expr(shape[1][0], e)
     raise ValueError(shape)
 
 
@@ -104,13 +165,9 @@ def shape_hidden(shape, under=False):
     k = shape[0]
     if k in ("hole", "at"):
         return under
-    if k == "wild":
-        return False
     if k == "paren":
         return shape_hidden(shape[1], True)
-    if k == "ref":
-        return shape_hidden(shape[1], under)
-    return any(shape_hidden(q, under) for q in shape[1])
+    return any(shape_hidden(q, under) for q in shape_children(shape))
 
 
 def shape_derefs(shape):
@@ -118,39 +175,61 @@ def shape_derefs(shape):
     k = shape[0]
     if k == "ref":
         return True
-    if k in ("paren",):
-        return shape_derefs(shape[1])
-    if k == "tuple":
-        return any(shape_derefs(q) for q in shape[1])
-    return False
+    return any(shape_derefs(q) for q in shape_children(shape))
 
 
-def coq_pat(shape, v):
+def shape_names(shape, x):
+    """every identifier the pattern binds, in source order (the variable of the binder is x)"""
     k = shape[0]
+    out = []
+    if k in ("hole", "at"):
+        out.append(x)
+    elif k == "var":
+        out.append(shape[1])
+    elif k == "atn":
+        out.append(shape[1])
+    if k == "or":
+        return shape_names(shape[1][0], x)
+    for q in shape_children(shape):
+        out += shape_names(q, x)
+    return out
+
+
+def coq_pat(shape, x, var):
+    """the pattern as a PatCtxModel.xpat; var renders an identifier of the program"""
+    k = shape[0]
+    rec = lambda q: coq_pat(q, x, var)
     if k == "hole":
-        return "PVar %s" % v
+        return "XVar %s" % var(x)
+    if k == "var":
+        return "XVar %s" % var(shape[1])
     if k == "at":
-        return "PAt %s (%s)" % (v, coq_pat(shape[1], v))
-    if k == "wild":
-        return "PWild"
+        return "XAt %s (%s)" % (var(x), rec(shape[1]))
+    if k == "atn":
+        return "XAt %s (%s)" % (var(shape[1]), rec(shape[2]))
+    if k in ("wild", "lit", "rest"):
+        return "XWild"
     if k == "paren":
-        return "PParen (%s)" % coq_pat(shape[1], v)
+        return "XParen (%s)" % rec(shape[1])
     if k == "ref":
-        return "PRef (%s)" % coq_pat(shape[1], v)
-    if k == "tuple":
-        return "PSeq %s" % clist(coq_pat(q, v) for q in shape[1])
+        return "XRef (%s)" % rec(shape[1])
+    if k in SEQ_KINDS:
+        con = {"tuple": "XTuple", "slice": "XSlice", "tstruct": "XTupleStruct", "struct": "XStruct", "or": "XOr"}[k]
+        return "%s %s" % (con, clist(rec(q) for q in shape_children(shape)))
     raise ValueError(shape)
 
 
-def coq_binds(shape, v, wrap_some=False):
-    """the list of bound variables of a binder as the model sees it: what pattern_get_vars reports (pv = CheckModel.pat_vars
-    with the model's parameter, bound in the tie's prelude)"""
+def coq_binds(shape, x, var, wrap_some=False):
+    """the list of bound variables of a binder as the model sees it: what pattern_get_vars reports (pvi / pvn =
+    PatCtxModel.xpat_vars with the model's parameter, on identifiers / on macro parameter indices; bound in the tie's prelude)"""
     if shape is None:
-        return "[%s]" % v
-    pt = coq_pat(shape, v)
+        return "[%s]" % var(x)
+    pt = coq_pat(shape, x, var)
     if wrap_some:
-        pt = "PSeq [%s]" % pt
-    return "(pv (%s))" % pt
+        pt = "XTupleStruct [%s]" % pt
+    return "(%s (%s))" % ("pvn" if var(x).isdigit() else "pvi", pt)
+
+
 KINDS = ["ascent", "ascent_par", "ascent_run", "ascent_run_par"]
 KIND_COQ = {"ascent": "KAscent", "ascent_par": "KAscentPar", "ascent_run": "KAscentRun", "ascent_run_par": "KAscentRunPar"}
 
@@ -384,7 +463,7 @@ def coq_arg(t, var):
     if t[0] == "w":
         return "AWild"
     if t[0] == "p":
-        return "APat %s" % coq_binds(shape_of(t), var(t[1]))
+        return "APat %s" % coq_binds(shape_of(t), t[1], var)
     raise ValueError(t)
 
 
@@ -392,9 +471,9 @@ def coq_cond(c, var):
     if c[0] == "if":
         return "CIf"
     if c[0] in ("let", "letc"):
-        return "CLet %s" % coq_binds(shape_of(c), var(c[1]))
+        return "CLet %s" % coq_binds(shape_of(c), c[1], var)
     if c[0] == "iflet":
-        return "CIfLet %s" % coq_binds(shape_of(c), var(c[1]), wrap_some=True)
+        return "CIfLet %s" % coq_binds(shape_of(c), c[1], var, wrap_some=True)
     raise ValueError(c)
 
 
@@ -416,11 +495,11 @@ def coq_sitem(it, N, var):
         return "SNeg %d %d" % (N.rel(it[1]), len(it[2]))
     if k == "agg":
         _, out, an, bound, rel, args = it[:6]
-        return "SAgg %s %s %d %s" % (coq_binds(shape_of(it), var(out)) if out else "[]", clist(var(x) for x in bound), N.rel(rel), clist(coq_aarg(a, var) for a in args))
+        return "SAgg %s %s %d %s" % (coq_binds(shape_of(it), out, var) if out else "[]", clist(var(x) for x in bound), N.rel(rel), clist(coq_aarg(a, var) for a in args))
     if k == "cond":
         return "SCond (%s)" % coq_cond(it[1], var)
     if k == "gen":
-        return "SGen %s" % coq_binds(shape_of(it), var(it[1]))
+        return "SGen %s" % coq_binds(shape_of(it), it[1], var)
     if k == "call":
         return "SCall %d %s" % (N.mac(it[1]), clist(var(x) for x in it[2]))
     raise ValueError(it)
